@@ -162,6 +162,8 @@ def norm(v):
         return {"__d__": sorted((str(k), norm(x)) for k, x in v.items())}
     if isinstance(v, Rec):
         return {"__r__": sorted((k, norm(x)) for k, x in v.__dict__.items())}
+    if isinstance(v, (set, frozenset)):
+        return {"__s__": sorted(repr(norm(x)) for x in v)}
     if isinstance(v, bool):
         return ("b", v)
     if isinstance(v, float):
